@@ -17,7 +17,7 @@ class C08(EngineProp):
         "cases = programs with two failing main steps (b on E0 with 1-3 lineages, c on E1) under retry policies of 1-3 attempts, and a "
         "generated handler layout: none / wildcard / scoped to b / scoped to c / scoped+wildcard, max_recoveries 1..3, handler action in "
         "{re-emit the failed event (lineage re-entry), return StopEvent, swallow, raise}; failures last for a generated number of "
-        "lineage generations. Every program is run with disable_validation=False and True and the observable traces are compared. "
+        "lineage generations. Every program is run with disable_validation=False and True, and on a second instance of the same workflow class, and the observable traces are compared. "
         "Non-trivial = some lineage entered a handler >=2 times, or the layout has both a scoped and a wildcard handler."
     )
     assumptions = [
@@ -86,12 +86,23 @@ class C08(EngineProp):
         try:
             rec = genwf.run_case_program(json.loads(json.dumps(spec)), probe=False)
             rec2 = genwf.run_case_program(json.loads(json.dumps(spec)), probe=False, wf_kwargs={"disable_validation": True})
+            # a SECOND instance of the very same workflow class (validation enabled), as a server creating one instance per request does
+            rec3 = genwf.run_case_program(
+                json.loads(json.dumps(spec)), probe=False,
+                wf_factory=lambda s_, rt_: type(rec.wf)(timeout=s_.get("timeout"), runtime=rt_),
+            )
         except Runaway:
             r.v("unbounded_reentry")
             r.nontrivial = True
             return r
         self.oracle(spec, rec, r, mode="validated")
         self.oracle(spec, rec2, r, mode="validation_disabled")
+        self.oracle(spec, rec3, r, mode="second_instance_of_the_class")
+        t3 = self.trace(rec3)
+        if self.trace(rec) != t3:
+            r.v("trace_differs_on_second_instance_of_the_class", outcome_first=self.trace(rec)[1][0], outcome_second=t3[1][0],
+                handler_entries_first=sum(1 for x in self.trace(rec)[0] if x[1] == "StepFailedEvent"),
+                handler_entries_second=sum(1 for x in t3[0] if x[1] == "StepFailedEvent"))
         t1, t2 = self.trace(rec), self.trace(rec2)
         if t1 != t2:
             r.v("trace_differs_with_validation_disabled", outcome_validated=t1[1][0], outcome_disabled=t2[1][0],
